@@ -56,3 +56,11 @@ ENTRY.setdefault("lean_props_extra", []).append(_tm.EXTRA_LEAN)
 ENTRY["trusted_base"] = ENTRY["trusted_base"] + _tm.TRUSTED_BASE
 ENTRY["assumptions"] = ENTRY["assumptions"] + _tm.ASSUMPTIONS
 ENTRY["level_text"] += " Third session: " + _tm.LEVEL_NOTE
+
+# ... and without the entry-skew hypothesis (a round-r message may reach a member still in round r-1: buffered, F+1 jump,
+# jump on a justified PRE-PREPARE, DECIDED): Proofs/QbftTimed2.lean, Props/C04Resync.lean
+from vlib import snippet_C04resync as _rs
+ENTRY.setdefault("lean_props_extra", []).append(_rs.EXTRA_LEAN)
+ENTRY["trusted_base"] = ENTRY["trusted_base"] + _rs.TRUSTED_BASE
+ENTRY["assumptions"] = ENTRY["assumptions"] + _rs.ASSUMPTIONS
+ENTRY["level_text"] += " " + _rs.LEVEL_NOTE
